@@ -6,8 +6,8 @@
 set -u
 PROP=$1; WT=$2; K=$3; shift 3
 EXTRA="$@"
-SD="$WT/SEED/$K"
-OUT=/verif/seeded/$PROP-$K
+SD="$WT/${SEEDDIR:-SEED}/$K"
+OUT=/verif/seeded/$PROP-${TAG:+$TAG-}$K
 [ -f "$SD/patch.diff" ] || { echo "no patch at $SD"; exit 2; }
 git -C "$WT" checkout -q -- . 2>/dev/null
 git -C "$WT" status --short | grep -v '^??' && { echo "worktree dirty"; exit 2; }
